@@ -351,6 +351,7 @@ package dnsmsg
 //@   modifies nothing
 //@   ensures err == nil ==> dynNonNil(r) && fresh(r) && off < noff && noff <= len(msg)
 //@   ensures err != nil ==> r == nil
+//@   callsite ReleaseBuf?: [C20:no-double-release] !attr(released, arg0)
 
 // ---- msg.go ------------------------------------------------------------------------------
 
